@@ -70,6 +70,7 @@ type stressResult struct {
 	Hits              [3]int64  `json:"yield_hits"`
 	Stuck             string    `json:"stuck,omitempty"`
 	GrpWaits          int64     `json:"group_waits_returned"`
+	Blind             string    `json:"blind,omitempty"`
 	AllBusyAtShutdown bool      `json:"all_workers_busy_when_shutdown_was_called"`
 }
 
@@ -131,9 +132,18 @@ func runStress(cfg stressCfg) (res stressResult) {
 			pools = append(pools, &spool{pool: p})
 		}
 	}
+	wantG := 0
 	for _, p := range pools {
 		p.obs = observe(p.pool)
 		p.pool.Start()
+		wantG += p.pool.WorkerCount() + 1
+	}
+	if p0 := patternOf(waitQuiescent(), before); p0.total() != wantG || p0.ReadLoop != wantG-len(pools) {
+		res.Blind = fmt.Sprintf("structural rules identify %q instead of %d dispatchers + %d idle workers right after Start", p0.String(), len(pools), wantG-len(pools))
+		for _, p := range pools {
+			p.pool.Shutdown()
+		}
+		return
 	}
 
 	maxTasks := cfg.Submitters*cfg.PerSub*4 + 2*effWorkers(cfg.Workers[0]) + 8
@@ -314,7 +324,7 @@ func runStress(cfg stressCfg) (res stressResult) {
 			os.WriteFile(fmt.Sprintf("%s/stuck-%d-%d.txt", dbg, os.Getpid(), cfg.Run), []byte(b.String()), 0o644)
 		}
 		for _, g := range gs0 {
-			if !before[g.ID] && g.Has("workerpool.(*WorkerPool).Submit") && !g.Has("workerpool.(*Task).run") {
+			if !before[g.ID] && g.Has(pkgWP+"(*WorkerPool).Submit") && !isPoolGoroutine(g) {
 				stuckWhere += fmt.Sprintf("[%s: %s] ", g.State, strings.Join(g.Frames[:min(5, len(g.Frames))], " < "))
 			}
 		}
